@@ -270,7 +270,10 @@ func init() {
 											}
 										}
 										if isGH && cd.want != 0 && cacheable && state != "hfp-now-cacheable" {
-											if r.Status != cd.want {
+											// a HEAD answer has no body either way: a 200 carrying the validators tells the client the same as
+											// a 304 (pike's 304 is produced by elton's fresh middleware, which only looks at answers with a body);
+											// the statement's clause is about the stored full response, i.e. GET
+											if r.Status != cd.want && !(m == "HEAD" && cd.want == 304 && r.Status == 200) {
 												viol(fmt.Sprintf("conditional-client-got-%d-expected-%d", r.Status, cd.want), fmt.Sprintf("label %s", r.XStatus))
 											}
 										}
